@@ -234,7 +234,7 @@ def run_reporters(st, events: list, *, preserve: bool = False, sanitize: bool = 
                         crash_at, crash_site = len(events) + 1, "%s.shutdown:%s" % (type(h).__name__, type(exc).__name__)
         for h in handlers[1:]:
             if h.worker.is_alive():
-                h.worker.join(5)
+                h.worker.join(120)  # the real process waits for the (non-daemon) writer thread at exit
                 if h.worker.is_alive() and not crash_at:
                     crash_at, crash_site = len(events) + 1, "CassetteWriter.worker:still-running"
         if thread_errors and not crash_at:
